@@ -26,6 +26,9 @@ def emits(tr):
                         "t": r["t"]})
         elif r["e"] in ("step_start", "wait_ret", "drained") or (r["e"] == "pub" and r["p"]["k"] == "unhandled"):
             out.append(r)
+        if r["e"] == "step_end":
+            out.append({"e": "step_end", "step": r["step"], "uid": r["uid"], "failed": r["how"].startswith("raise:"),
+                        "seq": r["seq"], "run": r["run"], "t": r["t"]})
     return out
 
 
@@ -43,5 +46,5 @@ def run(chk):
     items = eg.collect(chk, ["routing", "fanout"])
     items2 = [(l, p, e, emits(tr), s) for (l, p, e, tr, s) in items]
     eg.conform_reducer(chk, items)
-    eg.standard_run(chk, "C02", None, {"emit", "step_start", "wait_ret", "drained", "pub"}, extra=extra,
+    eg.standard_run(chk, "C02", None, {"emit", "step_start", "step_end", "wait_ret", "drained", "pub"}, extra=extra,
                     nontrivial=nontrivial, items=items2, conform=False)
